@@ -148,8 +148,8 @@ fn check(font: &MonoFont, st: MonoTextStyle<'_, Gray8>, sty: &[&str], ts: TextSt
     // (6) "\r\n" behaves like "\n"
     if text.contains("\r\n") {
         let lf = text.replace("\r\n", "\n");
-        // only claimed when no line's content ends in '\r' (a single '\r' is stripped per line)
-        if !lf.split('\n').any(|l| l.ends_with('\r')) {
+        // claimed when no line that is followed by "\r\n" itself ends in '\r' (exactly one '\r' is stripped per line)
+        if !text.contains("\r\r\n") {
             let (m2, r2, b2) = draw_text(st, ts, &lf, pos)?;
             if m2 != full || r2 != ret || b2 != bb { return Err(format!("CR LF text differs from its LF form {:?}: {}", lf, first_diff(&full, &m2))); }
         }
@@ -160,6 +160,31 @@ fn check(font: &MonoFont, st: MonoTextStyle<'_, Gray8>, sty: &[&str], ts: TextSt
         let joined = format!("{}{}", text, s2);
         let (mj, rj, _) = draw_text(st, ts, &joined, pos)?;
         if union(&full, &m2) != mj || r2 != rj { return Err(format!("chaining: drawing s2 at the returned position differs from drawing the concatenation: {}", first_diff(&union(&full, &m2), &mj))); }
+    }
+    // (8) the convenience constructors build the same Text / TextStyle as the builder
+    {
+        let dflt = TextStyle::default();
+        if dflt != TextStyleBuilder::new().alignment(Alignment::Left).baseline(Baseline::Alphabetic).line_height(LineHeight::Percent(100)).build() {
+            return Err("TextStyle::default() is not Left / Alphabetic / 100%".into());
+        }
+        if TextStyle::with_baseline(ts.baseline) != TextStyleBuilder::new().baseline(ts.baseline).build() { return Err("TextStyle::with_baseline differs from the builder".into()); }
+        if TextStyle::with_alignment(ts.alignment) != TextStyleBuilder::new().alignment(ts.alignment).build() { return Err("TextStyle::with_alignment differs from the builder".into()); }
+        let mut forms: Vec<(&str, Text<'_, MonoTextStyle<'_, Gray8>>, TextStyle)> = Vec::new();
+        forms.push(("Text::new", Text::new(text, pos, st), dflt));
+        forms.push(("Text::with_baseline", Text::with_baseline(text, pos, st, ts.baseline), TextStyleBuilder::new().baseline(ts.baseline).build()));
+        forms.push(("Text::with_alignment", Text::with_alignment(text, pos, st, ts.alignment), TextStyleBuilder::new().alignment(ts.alignment).build()));
+        for (name, t, want_ts) in forms {
+            let reference = Text::with_text_style(text, pos, st, want_ts);
+            if t != reference { return Err(format!("{} builds {:?}, expected text style {:?}", name, t.text_style, want_ts)); }
+            let mut a = NativeTarget::<Gray8>::new(big());
+            let ra = t.draw(&mut a).unwrap();
+            if want_ts == ts {
+                if a.map != full || ra != ret || t.bounding_box() != bb { return Err(format!("{} renders differently from with_text_style", name)); }
+            } else {
+                let (m2, r2, b2) = draw_text(st, want_ts, text, pos)?;
+                if a.map != m2 || ra != r2 || t.bounding_box() != b2 { return Err(format!("{} renders differently from with_text_style", name)); }
+            }
+        }
     }
     Ok(full.len() + 1)
 }
